@@ -29,7 +29,7 @@ func VerifH_C18_DoHClose() {
 // VerifH_C18_ReuseClose: Close is idempotent, closes every tracked connection, later exchanges fail.
 func VerifH_C18_ReuseClose() {
 	verifrt.Unwind(60)
-	verifrt.SchedBound(1)
+	verifrt.SchedBound(1 + verifrt.Tier) // thorough: one more deviation from the default schedule
 	var conns []*vNetConn
 	t := NewReuseConnTransport(ReuseConnOpts{DialContext: func(ctx context.Context) (net.Conn, error) {
 		c := newVNetConn()
@@ -56,7 +56,7 @@ func VerifH_C18_ReuseClose() {
 // exchange fails, Close does not deadlock.
 func VerifH_C18_ReuseCloseDuringDial() {
 	verifrt.Unwind(60)
-	verifrt.SchedBound(3)
+	verifrt.SchedBound(3 + verifrt.Tier) // thorough: one more deviation from the default schedule
 	var conns []*vNetConn
 	gate := make(chan struct{})
 	t := NewReuseConnTransport(ReuseConnOpts{DialContext: func(ctx context.Context) (net.Conn, error) {
@@ -91,7 +91,7 @@ func VerifH_C18_ReuseCloseDuringDial() {
 // VerifH_C18_QuicClose: same for the QUIC transport.
 func VerifH_C18_QuicClose() {
 	verifrt.Unwind(60)
-	verifrt.SchedBound(3)
+	verifrt.SchedBound(3 + verifrt.Tier) // thorough: one more deviation from the default schedule
 	var qcs []*vQuicConn
 	gate := make(chan struct{})
 	t := NewQuicTransport(QuicTransportOpts{DialContext: func(ctx context.Context) (quic.Connection, error) {
@@ -123,7 +123,7 @@ func VerifH_C18_QuicClose() {
 // VerifH_C18_PipelineClose: pool-backed transport.
 func VerifH_C18_PipelineClose() {
 	verifrt.Unwind(60)
-	verifrt.SchedBound(1)
+	verifrt.SchedBound(1 + verifrt.Tier) // thorough: one more deviation from the default schedule
 	var conns []*vNetConn
 	t := NewPipelineTransport(PipelineOpts{IsTCP: true, DialContext: func(ctx context.Context) (net.Conn, error) {
 		c := newVNetConn()
@@ -166,7 +166,7 @@ func VerifH_C18_StatusNeverLies() {
 // sockets must be closed and the unanswered exchange must end.
 func VerifH_C18_PipelineEoLClose() {
 	verifrt.Unwind(80)
-	verifrt.SchedBound(1)
+	verifrt.SchedBound(1 + verifrt.Tier) // thorough: one more deviation from the default schedule
 	var conns []*vNetConn
 	t := NewPipelineTransport(PipelineOpts{IsTCP: true, DialContext: func(ctx context.Context) (net.Conn, error) {
 		c := newVNetConn()
@@ -207,7 +207,7 @@ func VerifH_C18_PipelineEoLClose() {
 // the moment Close() started: the late connection is closed, nothing is served over it, nobody hangs.
 func VerifH_C18_ReuseCloseSlowConnClose() {
 	verifrt.Unwind(80)
-	verifrt.SchedBound(3)
+	verifrt.SchedBound(3 + verifrt.Tier) // thorough: one more deviation from the default schedule
 	var conns []*vNetConn
 	gate := make(chan struct{})
 	t := NewReuseConnTransport(ReuseConnOpts{DialContext: func(ctx context.Context) (net.Conn, error) {
@@ -251,7 +251,7 @@ func VerifH_C18_ReuseCloseSlowConnClose() {
 // must be closed by Close() like every other one.
 func VerifH_C18_PipelineAbandonedThenClose() {
 	verifrt.Unwind(80)
-	verifrt.SchedBound(1)
+	verifrt.SchedBound(1 + verifrt.Tier) // thorough: one more deviation from the default schedule
 	var conns []*vNetConn
 	isTCP := verifrt.Bool("tcp")
 	t := NewPipelineTransport(PipelineOpts{IsTCP: isTCP, DialContext: func(ctx context.Context) (net.Conn, error) {
@@ -283,7 +283,7 @@ func VerifH_C18_PipelineAbandonedThenClose() {
 // dialled, including the one the server had abandoned, is closed on our side too.
 func VerifH_C18_PeerClosedIdleConnection() {
 	verifrt.Unwind(120)
-	verifrt.SchedBound(1)
+	verifrt.SchedBound(1 + verifrt.Tier) // thorough: one more deviation from the default schedule
 	verifrt.NoTimers()
 	verifrt.CtxNoExpiry = true
 	var conns []*vNetConn
@@ -320,7 +320,7 @@ func VerifH_C18_PeerClosedIdleConnection() {
 func VerifH_C18_IdleTimerVersusQueryThenClose() {
 	verifrt.Expect("exchange-returned,closed")
 	verifrt.Unwind(120)
-	verifrt.SchedBound(2)
+	verifrt.SchedBound(2 + verifrt.Tier) // thorough: one more deviation from the default schedule
 	verifrt.PreemptSync()
 	verifrt.CtxNoExpiry = true
 	var conns []*vNetConn
